@@ -619,7 +619,7 @@ pub fn main(args: &Args) -> i32 {
         ("backpressure-cap2-unfiltered", SParams { cap: 2, n_msgs: 4, rotation: 3, with_unfiltered: true }),
     ] {
         let plan = SchedPlan {
-            bounds: if quick { vec![Some(3)] } else { vec![Some(5), Some(6)] },
+            bounds: if quick { vec![Some(4)] } else { vec![Some(6), Some(7)] },
             max_execs: args.tier.pick(2_000_000, 50_000_000),
             time_budget_s: args.tier.pick(120.0, 600.0),
         };
